@@ -3,16 +3,16 @@ import json, os
 import vlib
 
 THEOREMS_C14 = ["Slock.C14T." + t for t in (
-    "parse_build", "parse_build_many", "zero_args_pending", "chunking_counterexample", "chunking_not_invariant",
-    "lone_lf_depends_on_chunking", "chunking_invariant_partial", "chunking_wellformed_partial",
+    "parse_build", "parse_build_many", "zero_args_pending", "chunking_invariant", "chunking_invariant_wellformed",
+    "chunking_regression", "lone_lf_depends_on_chunking",
     "normalisation_key", "normalisation_copies_equal", "normalisation_id", "normalisation_length",
     "text_eq_binary", "render_plus_one", "render_parses_back",
-    "result_12_panics", "every_result_code_has_rendering_fails", "every_result_code_has_rendering_partial")]
+    "every_result_code_has_rendering", "error_msg_complete")]
 THEOREMS_C13 = ["Slock.C13T." + t for t in (
-    "convert_no_panic_lock", "args2flag_panics", "args2flag_no_panic_partial", "args2flag_rejects_valid",
-    "set_ex_panics", "setnx_px_panics", "getset_tx_panics", "append_ex_panics", "setex_short_panics", "psetex_short_panics",
-    "setex_ex_panics", "incr_ex_panics", "decrby_ptx_panics", "convert_no_panic_read", "convert_no_panic_expire",
-    "convert_no_panic_set_partial", "convert_no_panic_setex_partial", "convert_no_panic_incr_partial", "parser_no_panic_on_built")]
+    "convert_no_panic_lock", "args2flag_no_panic", "args2flag_missing_value", "args2flag_accepts_valid",
+    "set_ex_rejected", "append_px_rejected", "setex_short_rejected", "incr_ex_rejected",
+    "convert_no_panic_read", "convert_no_panic_expire", "convert_no_panic_set", "convert_no_panic_setex",
+    "convert_no_panic_incr", "convert_no_panic", "parser_no_panic_on_built")]
 THEOREMS = THEOREMS_C14 + THEOREMS_C13
 FINISH = {"level": "proof", "assumptions": [
     "MD5 is an opaque function returning 16 bytes in the theorems (the driver's executable MD5 is compared with crypto/md5 byte for byte)",
@@ -53,12 +53,12 @@ def _run(ctx, prefixes, theorems, modules):
     for mod, thms in theorems:
         if thms:
             ctx.audit(mod, thms)
-    n = 120 if ctx.tier == "quick" else 800
+    n = 120 if ctx.tier == "quick" else 500
     extra = {"VERIF_THOROUGH": "1" if ctx.tier == "thorough" else "0"}
     for pkg in ("protocol", "server"):
         if not os.path.exists(os.path.join(vlib.VERIF, "go/harness", pkg, "zz_verif_text_test.go")):
             continue
-        exe = ctx.build_harness(pkg)
+        exe = ctx.build_harness(pkg, only=["zz_verif_text_test.go"])
         if not exe:
             continue
         outdir = ctx.run_harness(exe, "text", n, extra=extra)
